@@ -10,6 +10,9 @@ from vlib import gen_values as gv
 PLAIN_NAMES = ["a", "b", "c", "d", "foo", "bar", "x1", "name", "ab", "x_a"]
 # names that _parse_attribute_name rewrites; pairwise non-colliding after mapping
 RENAMING_NAMES = ["class", "a-b", "1st", "for", "é", "my name", "a.b", "__init__", "@type", "from"]
+# property names that are themselves JSON-Schema keywords (annotation keywords included): a loader or walker
+# which treats a key by its spelling rather than by its position goes wrong on these
+KEYWORD_NAMES = ["examples", "$comment", "default", "title", "type", "enum", "description", "$id", "readOnly"]
 TYPES = ["null", "boolean", "integer", "number", "string", "array", "object"]
 TITLES = ["T0", "T1", "T2", "Thing", "other thing", "T0"]
 
@@ -32,7 +35,8 @@ def literal(rng, opts, depth=2):
         return copy.deepcopy(rng.choice(gv.SCALARS))
     if roll < 0.65 and opts.lookalike_literals:
         return rng.choice([[1], [True], [0], [False], [1.0], {"a": 1}, {"a": True}, {"a": 0},
-                           {"a": False}, [[1]], [[True]], [0, 1], [False, True], [], {}])
+                           {"a": False}, [[1]], [[True]], [0, 1], [False, True], [], {},
+                           {"examples": [1]}, {"$comment": "x", "a": 1}, {"default": 0, "title": "t"}])
     return gv.random_value(rng, depth)
 
 
@@ -153,8 +157,11 @@ def object_keywords(rng, opts, out, depth):
         deps = {}
         pool = list(names) + ["zz", "a", "b"]
         for key in rng.sample(pool, k=rng.randint(1, 2)):
-            if rng.random() < 0.5:
+            roll = rng.random()
+            if roll < 0.45:
                 deps[key] = list(dict.fromkeys(rng.sample(pool, k=rng.randint(0, 2))))
+            elif roll < 0.6:
+                deps[key] = rng.choice([False, False, True, {}])    # "this member must not be there" / no-ops
             else:
                 deps[key] = sub(rng, opts, depth)
         out["dependencies"] = deps
